@@ -31,7 +31,7 @@ BOUNDS = {
              "(2,2,2), every length 0..22 incl. the differential clause against a spec-only decoder (well-formed files are decoded, to the prescribed labels); a two-block file from the real encoder with "
              "one whole 8-byte block header symbolic (every block position), two-channel files with the whole channel offset table symbolic; raw: all five dtypes, C in 1..3, every length 0..itemsize*voxels+9; "
              "mutate: every single-byte replacement and truncation of the encodings of 2-voxel chunks",
-    "thorough": "lengths up to 36 (C=1 and C=2); two-block files with every byte symbolic at lengths 12..24 under a wall "
+    "thorough": "lengths up to 36 (C=1), up to 24 (C=2: the first length with two complete channels); two-block files with every byte symbolic at lengths 12..24 under a wall "
                 "budget (truncation reported as inconclusive); header/mutate harnesses on 4-8 voxel chunks",
 }
 OUTSIDE = ["the JPEG bit-stream decoding itself (libjpeg through Pillow is compiled code): harness 'jpeg' replaces Pillow by a "
@@ -50,8 +50,8 @@ def configs(tier, seed):
         # two channels: below 24 bytes everything is "too short"; from 24 on the path count is the
         # product over the channels (680 s for L=24), hence thorough only; the quick tier covers the
         # channel table with harness 'chantable'
-        (2, (1, 1, 1), (1, 1, 1), "uint32", (0, 7, 8, 23) if quick else list(range(0, 24, 5)) + [24, 25, 28]),
-        (2, (1, 1, 1), (1, 1, 1), "uint64", (0, 23) if quick else (23, 24, 28)),
+        (2, (1, 1, 1), (1, 1, 1), "uint32", (0, 7, 8, 23) if quick else list(range(0, 24, 5)) + [24]),
+        (2, (1, 1, 1), (1, 1, 1), "uint64", (0, 23) if quick else (23, 24)),
     ]
     if not quick:
         # two blocks with every byte symbolic: path count is the product over blocks (slice bounds,
@@ -61,7 +61,7 @@ def configs(tier, seed):
     for C, shape, block, dtype, lens in cases:
         for L in lens:
             out.append(dict(harness="cseg", C=C, shape=list(shape), block=list(block), dtype=dtype, L=L,
-                            cost=(1 + L * L // 50) * (40 if C == 2 and L >= 24 else 1), wall=1200, max_paths=200000, timeout_ms=30000))
+                            cost=(1 + L * L // 50) * (40 if C == 2 and L >= 24 else 1), wall=(3000 if C == 2 and L >= 24 else 1200), max_paths=200000, timeout_ms=30000))
     hdr = [(1, (1, 1, 2), (1, 1, 1), "uint32")]
     if not quick:
         hdr += [(1, (1, 2, 2), (1, 1, 1), "uint64"), (2, (1, 1, 2), (1, 1, 1), "uint32"), (1, (2, 2, 2), (1, 2, 1), "uint32"), (2, (1, 2, 2), (2, 1, 1), "uint64")]
